@@ -280,6 +280,13 @@ func (p *c07Pred) sql(tight, upper bool) string {
 // eval is Kleene three-valued: 1 true, 0 false, -1 unknown (a NULL operand).  HAVING keeps a group
 // iff the result is 1.
 func (p *c07Pred) eval(rows []Row) (tri int, sawNull bool) {
+	return p.evalB(rows, nil)
+}
+
+// evalB additionally reports (through borderline) whether some atom compares a value with a literal it
+// equals up to float rounding ((4-17)*1.8 = -23.400000000000002 vs -23.4): the exact outcome of such a
+// comparison depends on the order of floating-point operations, which the statement does not fix.
+func (p *c07Pred) evalB(rows []Row, borderline *bool) (tri int, sawNull bool) {
 	switch p.K {
 	case "atom":
 		v, _ := p.Expr.eval(rows)
@@ -288,6 +295,9 @@ func (p *c07Pred) eval(rows []Row) (tri int, sawNull bool) {
 		}
 		a := v.(float64)
 		b, _ := strconv.ParseFloat(p.Lit, 64)
+		if borderline != nil && a != b && feq(a, b) {
+			*borderline = true
+		}
 		var t bool
 		switch p.Cmp {
 		case ">":
@@ -308,8 +318,8 @@ func (p *c07Pred) eval(rows []Row) (tri int, sawNull bool) {
 		}
 		return 0, false
 	case "and":
-		l, n1 := p.L.eval(rows)
-		r, n2 := p.R.eval(rows)
+		l, n1 := p.L.evalB(rows, borderline)
+		r, n2 := p.R.evalB(rows, borderline)
 		switch {
 		case l == 0 || r == 0:
 			return 0, n1 || n2
@@ -318,8 +328,8 @@ func (p *c07Pred) eval(rows []Row) (tri int, sawNull bool) {
 		}
 		return -1, true
 	case "or":
-		l, n1 := p.L.eval(rows)
-		r, n2 := p.R.eval(rows)
+		l, n1 := p.L.evalB(rows, borderline)
+		r, n2 := p.R.evalB(rows, borderline)
 		switch {
 		case l == 1 || r == 1:
 			return 1, n1 || n2
@@ -427,6 +437,7 @@ var c07Shapes = []string{
 	"agg_of_expr",
 	"agg_of_expr_op_lit", "agg_of_expr_op_lit",
 	"lit_op_agg_of_expr",
+	"agg_of_expr_op_agg_of_expr", "agg_of_expr_op_agg",
 }
 
 func c07GenExpr(r *rand.Rand, shape string) *c07Expr {
@@ -462,6 +473,10 @@ func c07GenExpr(r *rand.Rand, shape string) *c07Expr {
 		return c07Bin(op, c07GenInnerAgg(r), lit)
 	case "lit_op_agg_of_expr":
 		return c07Bin(pick(r, []string{"+", "-", "*"}), lit, c07GenInnerAgg(r))
+	case "agg_of_expr_op_agg_of_expr": // two different per-row expressions in one item
+		return c07Bin(pick(r, []string{"+", "-", "*"}), c07GenInnerAgg(r), c07GenInnerAgg(r))
+	case "agg_of_expr_op_agg":
+		return c07Bin(pick(r, []string{"+", "-", "*"}), c07GenInnerAgg(r), c07GenPlainAgg(r))
 	}
 	return c07GenPlainAgg(r)
 }
@@ -655,7 +670,7 @@ func c07Evaluate(c *c07Case, bs []*c07Batch) {
 			g.DKey = strings.Join(parts, "\x01")
 			g.Keep = true
 			if c.Having != nil {
-				tri, sawNull := c.Having.eval(g.Rows)
+				tri, sawNull := c.Having.evalB(g.Rows, &c.borderline)
 				g.Keep = tri == 1
 				g.HNull = sawNull
 			}
@@ -841,6 +856,22 @@ func genC07(c *c07Case, r *rand.Rand) {
 		for _, k := range cand[:min(nk, len(cand))] {
 			k.Dir = pick(r, []string{"", "ASC", "DESC", "DESC"})
 			c.Order = append(c.Order, k)
+		}
+		// a two-key order whose first key ties often (an item, typically count(*)) followed by a group
+		// column with the direction left implicit: the default direction of a later key must be ASC
+		// whatever the earlier key's direction was
+		if nk == 1 && len(cand) > 1 && r.Intn(3) == 0 {
+			var item, grp *c07Key
+			for i := range cand {
+				if cand[i].Kind == "group" && grp == nil {
+					grp = &cand[i]
+				} else if cand[i].Kind != "group" && item == nil {
+					item = &cand[i]
+				}
+			}
+			if item != nil && grp != nil {
+				c.Order = []c07Key{{Col: item.Col, Kind: item.Kind, Dir: pick(r, []string{"DESC", "DESC", "ASC"})}, {Col: grp.Col, Kind: grp.Kind, Dir: ""}}
+			}
 		}
 	}
 	c.Limit = -1
